@@ -106,44 +106,57 @@ if hasattr(_bl, '_repr'):
 
 # ---------------------------------------------------------------- S2 exact quotient
 class CeilQuot:
-    """ceil(num/den), den >= 1.  Comparisons against ints by cross-multiplication (linear when the
-    other side is concrete); materialises as -((-num)//den) only when used as a number."""
+    """ceil(num/den) + k, den >= 1, k a (usually concrete) integer.  Comparisons against integers are decided by
+    cross-multiplication (linear whenever the other side and k are concrete); it materialises as
+    -((-num)//den) + k only when used as a general number."""
 
-    def __init__(self, num, den):
+    def __init__(self, num, den, k=0):
         self.num = num
         self.den = den
+        self.k = k
         self._m = None
 
     def mat(self):
         if self._m is None:
-            self._m = -((-self.num) // self.den)
+            self._m = -((-self.num) // self.den) + self.k
         return self._m
 
     def __gt__(self, o):
-        return self.num > o * self.den
+        return self.num > (o - self.k) * self.den
 
     def __le__(self, o):
-        return self.num <= o * self.den
+        return self.num <= (o - self.k) * self.den
 
     def __lt__(self, o):
-        return not (self.num > (o - 1) * self.den)
+        return self.num <= (o - self.k - 1) * self.den
 
     def __ge__(self, o):
-        return self.num > (o - 1) * self.den
+        return self.num > (o - self.k - 1) * self.den
 
     def __eq__(self, o):
-        return self.mat() == o
+        if type(o) is CeilQuot:
+            return self.mat() == o.mat()
+        if self.num > (o - self.k - 1) * self.den:
+            if self.num <= (o - self.k) * self.den:
+                return True
+        return False
 
     def __ne__(self, o):
-        return self.mat() != o
+        return not self.__eq__(o)
 
     def __add__(self, o):
+        if type(o) is int:
+            return CeilQuot(self.num, self.den, self.k + o)
         return self.mat() + o
 
     def __radd__(self, o):
+        if type(o) is int:
+            return CeilQuot(self.num, self.den, self.k + o)
         return o + self.mat()
 
     def __sub__(self, o):
+        if type(o) is int:
+            return CeilQuot(self.num, self.den, self.k - o)
         return self.mat() - o
 
     def __rsub__(self, o):
@@ -163,6 +176,23 @@ class CeilQuot:
 
     def __hash__(self):
         return hash(self.mat())
+
+
+class LazyRange:
+    """range(start, CeilQuot): membership of the next index is decided by cross-multiplication"""
+
+    def __init__(self, start, stop):
+        self.start = start
+        self.stop = stop
+
+    def __iter__(self):
+        i = self.start
+        while self.stop > i:
+            yield i
+            i += 1
+
+    def __len__(self):
+        return (self.stop - self.start).mat()
 
 
 class Ratio:
@@ -240,6 +270,13 @@ _pm.nextfn[(_bl._int.__code__, int)] = int
 
 
 def _rg(*a):
+    with NoTracing():
+        lazy = ((len(a) == 1 and type(a[0]) is CeilQuot)
+                or (len(a) == 2 and type(a[1]) is CeilQuot and type(a[0]) is int))
+    if lazy:
+        if len(a) == 1:
+            return LazyRange(0, a[0])
+        return LazyRange(a[0], a[1])
     a = tuple(x.mat() if type(x) is CeilQuot else x for x in a)
     return _orig_range(*a)
 
